@@ -45,6 +45,11 @@ type Case struct {
 	// unrelated) connects, a refresh runs and the probe is repeated: what another party's chain contains never
 	// entitles its CA to sign this client's list.
 	Interleave bool `json:"interleave,omitempty"`
+	// Primed (forgery sibling / unrelated): before the intake ANOTHER validator instance of the same process, whose
+	// configured trusted signer is the forgery's signer, takes in the very same bytes - for that instance they are
+	// authentic. Whatever the process remembers about documents it has verified must not carry over to an instance
+	// for which the signer is not entitled.
+	Primed bool `json:"primed,omitempty"`
 }
 
 var forgeries = []string{
@@ -54,6 +59,7 @@ var forgeries = []string{
 	"alg-pss", "alg-ed25519", "alg-oid-other-family", "alg-hash-swap", "inner-outer-mismatch-resigned",
 	"stale-signature", "stale-signature",
 	"sig-length", "sig-length",
+	"aki-serial-only",
 }
 
 var regions = []string{"tbs-body", "tbs-header", "inner-alg", "entries", "outer-alg-oid", "sig-bits", "sig-bits"}
@@ -74,6 +80,7 @@ func genCase(t *rapid.T) Case {
 	c.FailFirst = rapid.SampledFrom([]string{"", "", "garbage", "http500", "truncated", "same"}).Draw(t, "failfirst")
 	c.ExtraTrusted = rapid.IntRange(0, 6).Draw(t, "extratrusted")
 	c.Interleave = rapid.IntRange(0, 2).Draw(t, "interleave") > 0
+	c.Primed = rapid.Bool().Draw(t, "primed")
 	c.Alg = rapid.SampledFrom(gen.CompatibleAlgs(gen.K(c.CAKey))).Draw(t, "alg")
 	if c.Forgery == "sig-length" {
 		c.Pos = rapid.IntRange(0, 1).Draw(t, "siglen")
@@ -238,6 +245,20 @@ func runCase(c Case, x *ev.Ctx) error {
 		s := mkSpec(trusted, trusted.Cert.RawSubject, algFor(trusted.Key), "0a", "0b")
 		offered = s.MustBuild(trusted.Key)
 		expectAuthentic = c.Forgery == "trusted-signer"
+	case "aki-serial-only":
+		// a list in the CA's name signed by the configured trusted signer (another party's certificate); its authority key
+		// identifier carries no keyIdentifier and names the signer by SERIAL NUMBER only - authorityCertIssuer is a URI, a
+		// dNSName or an empty GeneralNames, so nothing in it matches the signer's issuer name
+		s := mkSpec(trusted, ca.Cert.RawSubject, algFor(trusted.Key), "0a", "0b")
+		var exts []gen.Ext
+		for _, e := range s.Exts {
+			if e.OID != gen.OIDAKI {
+				exts = append(exts, e)
+			}
+		}
+		ext, _ := gen.AKIExtension([]string{"uri-serial", "dns-serial", "emptynames-serial"}[c.Pos%3], trusted.Cert)
+		s.Exts = append(exts, gen.Ext{OID: gen.OIDAKI, Value: ext.Value})
+		offered = s.MustBuild(trusted.Key)
 	case "alg-pss":
 		if !ca.Key.IsRSA() {
 			grey = true
@@ -306,6 +327,20 @@ func runCase(c Case, x *ev.Ctx) error {
 	for i := 0; i < c.ExtraTrusted; i++ {
 		extra := gen.Issue(gen.CertSpec{Key: "p256d", Subject: gen.CN(fmt.Sprintf("%s other signer %d", name, i)), SerialHex: fmt.Sprintf("40%02x", i), KeyUsage: "crlonly", NoEKU: true, ForceSKI: true}, unrelated)
 		trustedList = append(trustedList, extra.Cert)
+	}
+	if c.Primed && (c.Forgery == "sibling" || c.Forgery == "unrelated") {
+		signer := sibling
+		if c.Forgery == "unrelated" {
+			signer = unrelated
+		}
+		o.Serve("/primer.crl", encode(offered))
+		primer, perr := world.NewChecker(world.CRLOpts{WorkDir: world.NewDir("c04p"), Strict: true, Sig: "verify", Trusted: []*x509.Certificate{signer.Cert}, URLs: []string{o.URL("/primer.crl")}})
+		if perr == nil {
+			x.Classf("primed-by-an-instance-trusting-the-signer=%s", c.Forgery)
+			defer primer.Cleanup()
+		} else {
+			x.Classf("primer-could-not-provision=%s", c.Forgery)
+		}
 	}
 	ch, err := world.NewChecker(world.CRLOpts{WorkDir: world.NewDir("c04"), Disk: c.Disk, Strict: true, Sig: "verify", Trusted: trustedList, Background: c.Background})
 	if err != nil {
@@ -456,7 +491,7 @@ func runCase(c Case, x *ev.Ctx) error {
 		// acceptance of authentic lists is C01/C06 territory, but a harness that rejects everything would be vacuous
 		return fmt.Errorf("authentic CRL (forgery=%s alg=%s key=%s aki=%s intake=%s pem=%v) was NOT taken into force", c.Forgery, c.Alg, c.CAKey, c.AKI, c.Intake, c.PEM)
 	}
-	x.NonTrivial(fmt.Sprintf("%s|%s|%s|%s|%s|%s|%d|%v|%d|%v|%v", c.Forgery, c.Region, c.Alg, c.AKI, c.Intake, c.CAKey, c.Depth, c.Pos%64, c.ExtraTrusted, c.Interleave, c.LeafOnly))
+	x.NonTrivial(fmt.Sprintf("%s|%s|%s|%s|%s|%s|%d|%v|%d|%v|%v", c.Forgery, c.Region, c.Alg, c.AKI, c.Intake, c.CAKey, c.Depth, c.Pos%64, c.ExtraTrusted, c.Interleave, c.LeafOnly) + fmt.Sprint(c.Primed && (c.Forgery == "sibling" || c.Forgery == "unrelated")))
 	return nil
 }
 
